@@ -75,7 +75,7 @@ class Ob(object):
     def case(self, cond):
         """for _ in ob.case(cond): ...   runs the body under the extra assumption cond (skipped when infeasible)"""
         pc = self.ex.pc
-        if cond is False or (cond is not True and not pc.feasible(cond)):
+        if cond is False or (cond is not True and not pc.feasible(cond, timeout_ms=1500, mark=False)):
             return
         pc.solver.push()
         n = len(pc.facts)
@@ -95,17 +95,18 @@ class Ob(object):
         self.results.append({'name': name, 'kind': kind, 'status': status, 'detail': detail or {}})
 
     def prove(self, name, cond, kind='post'):
-        """first-order obligation: pc |= cond"""
+        """first-order obligation: pc |= cond   (ghost / rank / lemma obligations also use the ghost facts)"""
         if cond is True:
             return self._add(name, kind, 'discharged')
         if cond is False:
             r, m = self.ex.pc.model()
             return self._add(name, kind, 'failed' if r == z3.sat else 'undecided', {'model': m, 'cond': 'False'})
-        r, m = self.ex.pc.model(z3.Not(cond))
+        gf = list(self.ex.ghost_facts) if kind in ('ghost', 'rank', 'lemma') else []
+        r, m = self.ex.pc.model(z3.Not(cond), *gf)
         if r == z3.unsat:
             return self._add(name, kind, 'discharged')
         if r == z3.sat:
-            m = small_model(self.ex.pc, [z3.Not(cond)]) or m
+            m = small_model(self.ex.pc, [z3.Not(cond)] + gf) or m
             return self._add(name, kind, 'failed', {'model': m, 'cond': str(z3.simplify(cond))[:300]})
         return self._add(name, kind, 'undecided', {'reason': 'solver unknown', 'cond': str(cond)[:300]})
 
